@@ -170,6 +170,10 @@ def run_shape(shape, tier):
         info.setdefault("tree", str(rel))
         msg = structural_problems(sq, rel)
         obs = [("conformed tree is a fixed point of conform with coherent SELECT markers", msg is None, {"why": msg, "tree": str(rel)})]
+        want_cols = set(cols_of(prog, sqlprogs.LEAFCOLS))
+        have_cols = {t.qualified_name for t in rel.columns}
+        obs.append(("the result has the columns of the operation sequence", have_cols == want_cols,
+                    {"columns": sorted(have_cols), "expected": sorted(want_cols), "tree": str(rel)}))
         if kind == "raw":
             if "ref" not in cache:
                 cache["ref"] = relmodel.unordered(sem_seq(prog, env, prefer="r"))
@@ -243,6 +247,8 @@ def concrete_check(prog, kind, rows, bind):
     msg = structural_problems(sq, rel)
     if msg:
         return True, "marker:" + msg.split(" between")[0].replace("recorded ", "").replace(" ", "-")[:60], {"why": msg, "tree": str(rel)}
+    if {t.qualified_name for t in rel.columns} != set(cols_of(prog, sqlprogs.LEAFCOLS)):
+        return True, "columns-differ", {"tree": str(rel), "columns": sorted(str(t) for t in rel.columns), "expected": sorted(cols_of(prog, sqlprogs.LEAFCOLS))}
     if kind == "raw" and sqlprogs.determinate(prog, bind):
         exp = pyeval(prog, rows, bind, env.tags, prefer="r")
         got = pytree(rel, rows, prefer="r")
